@@ -858,6 +858,12 @@ func paramOrigin(v ssa.Value) (p *ssa.Parameter, field int, ok bool) {
 			return nil, 0, false
 		}
 		if fa, isFA := x.X.(*ssa.FieldAddr); isFA {
+			// a pointer receiver / pointer parameter: p.F
+			if pp, isP := fa.X.(*ssa.Parameter); isP {
+				if _, isPtr := pp.Type().Underlying().(*types.Pointer); isPtr {
+					return pp, fa.Field, true
+				}
+			}
 			if al, isAl := fa.X.(*ssa.Alloc); isAl && al.Referrers() != nil {
 				// the spill slot of a struct parameter: one whole store of the parameter, no field stores
 				var pp *ssa.Parameter
@@ -1168,7 +1174,7 @@ func constructionValues(recvT types.Type, field int) (out []callerVal, ok bool) 
 					// assigned from another T value (a call result, a copy): that value was constructed elsewhere
 					return
 				}
-				s := localFieldStore(x, field)
+				s := allocFieldStore(x, field)
 				if s == nil {
 					ok = false
 					return
@@ -1211,4 +1217,29 @@ func spilledStructParam(al *ssa.Alloc) bool {
 		}
 	}
 	return false
+}
+
+// allocFieldStore: the only store into field `field` made through the allocation itself (the
+// composite literal's initialisation); the allocation may escape — stores through other pointers
+// are looked for separately by the caller.
+func allocFieldStore(al *ssa.Alloc, field int) *ssa.Store {
+	if al.Referrers() == nil {
+		return nil
+	}
+	var st *ssa.Store
+	for _, ref := range *al.Referrers() {
+		fa, ok := ref.(*ssa.FieldAddr)
+		if !ok || fa.Field != field || fa.Referrers() == nil {
+			continue
+		}
+		for _, r2 := range *fa.Referrers() {
+			if y, ok := r2.(*ssa.Store); ok && y.Addr == ssa.Value(fa) {
+				if st != nil {
+					return nil
+				}
+				st = y
+			}
+		}
+	}
+	return st
 }
